@@ -2,8 +2,10 @@
   C08 — cloning yields an equal, fully independent vector on every backend.
 -/
 import AnyVecModel.Proofs.Exec
+import AnyVecModel.Proofs.ExecClone
 import AnyVecModel.Props.Hist
 import AnyVecModel.Props.Refine
+import AnyVecModel.Props.RefineMulti
 import AnyVecModel.Proofs.KernelClone
 import AnyVecModel.Proofs.KernelDelegConstruct
 namespace AnyVec
@@ -11,17 +13,7 @@ namespace C08
 open World
 
 /-- the clone events of slots `[i, i+k)` of `s`, oldest first: element `j` is cloned into identity `c + j` -/
-def cloneEvents (s : VecSt) (i k c : Nat) : List Event :=
-  (List.range k).map fun j => Event.clone (s.cells.get (i + j)).idOr0 (c + j)
-
-theorem cloneEvents_succ (s : VecSt) (i k c : Nat) :
-    cloneEvents s i (k + 1) c = Event.clone (s.cells.get i).idOr0 c :: cloneEvents s (i + 1) k (c + 1) := by
-  simp only [cloneEvents, List.range_succ_eq_map, List.map_cons, List.map_map, Nat.add_zero]
-  congr 1
-  apply List.map_congr_left
-  intro j _
-  simp only [Function.comp, Nat.succ_eq_add_one]
-  rw [show i + (j + 1) = i + 1 + j by omega, show c + (j + 1) = c + 1 + j by omega]
+abbrev cloneEvents := AnyVec.cloneEvents
 
 /-- the clone loop without an injected fault: element by element, each source element is cloned
 exactly once, in order; the clones get the next fresh identities and land in the same slots of the
@@ -35,59 +27,8 @@ theorem cloneLoop_nofault (w : World) (src dst : Nat) (s n : VecSt) (i k : Nat) 
       n'.len = n.len ∧ n'.cap = n.cap ∧ n'.live = true ∧ n'.ty = n.ty ∧ n'.bk = n.bk ∧
       n.cells.length ≤ n'.cells.length ∧
       (∀ j, j < i → n'.cells.get j = n.cells.get j) ∧
-      (∀ j, j < k → n'.cells.get (i + j) = .val (w.created + j)) := by
-  induction k generalizing w n i with
-  | zero =>
-    refine ⟨n, ?_, rfl, rfl, hnl, rfl, rfl, Nat.le_refl _, fun _ _ => rfl, fun j hj => absurd hj (by omega)⟩
-    have : w.vecs.set dst n = w.vecs := by
-      apply List.ext_getElem?; intro m
-      by_cases hm : dst = m
-      · subst hm
-        simp [List.getElem?_set, hn, (List.getElem?_eq_some_iff.mp hn).1, (List.getElem?_eq_some_iff.mp hn).2]
-      · simp [List.getElem?_set, hm]
-    simp [cloneLoop, this, cloneEvents]
-  | succ k ih =>
-    have hslt : src < w.vecs.length := (List.getElem?_eq_some_iff.mp hs).1
-    have hsdd : w.vecs[src] = s := (List.getElem?_eq_some_iff.mp hs).2
-    have hnlt : dst < w.vecs.length := (List.getElem?_eq_some_iff.mp hn).1
-    have hndd : w.vecs[dst] = n := (List.getElem?_eq_some_iff.mp hn).2
-    obtain ⟨id, hid⟩ := hsinit 0 (by omega)
-    simp at hid
-    have hbs : i < s.cap := by omega
-    have hbn : i < n.cap := by omega
-    let n1 : VecSt := { n with cells := (n.cells.ensure (i + 1)).set i (.val w.created), live := true }
-    let w1 : World := { w with vecs := w.vecs.set dst n1, created := w.created + 1,
-                               ev := Event.clone id w.created :: w.ev }
-    have hs1 : w1.vecs[src]? = some s := by simp [w1, List.getElem?_set, Ne.symm hsd, hs]
-    obtain ⟨n', he, h1, h2, h3, h4, h4b, h5, h6, h7⟩ := ih (w := w1) (n := n1) (i := i + 1) hs1 (by omega)
-      (by intro j hj; have := hsinit (j + 1) (by omega); rw [show i + 1 + j = i + (j + 1) by omega]; exact this)
-      (by simp [w1, hnlt]) rfl (by simp [n1]; omega) (by simp [w1, hf])
-    refine ⟨n', ?_, by simpa [n1] using h1, by simpa [n1] using h2, h3, by simpa [n1] using h4,
-      by simpa [n1] using h4b, ?_, ?_, ?_⟩
-    · have hstep : cloneLoop src dst i (k + 1) w = cloneLoop src dst (i + 1) k w1 := by
-        simp [cloneLoop, readElem, getVec, hslt, hsdd, hsl, VecSt.readElem_ok, hbs, hid, cloneElem, tick, hf, fresh,
-          World.writeCell, hnlt, hndd, hnl, VecSt.writeCell_ok, hbn, World.upd, w1, n1]
-      rw [hstep, he]
-      simp only [w1, cloneEvents_succ, hid, Cell.idOr0, List.reverse_cons, List.append_assoc, List.singleton_append]
-      simp [Nat.add_assoc, Nat.add_comm 1 k]
-    · have : n.cells.length ≤ n1.cells.length := by simp [n1]; omega
-      omega
-    · intro j hj
-      rw [h6 j (by omega)]
-      simp only [n1]
-      rw [get_set_ne _ _ _ _ (by omega), ensure_get]
-    · intro j hj
-      cases j with
-      | zero =>
-        rw [Nat.add_zero, h6 i (by omega)]
-        simp only [n1]
-        rw [get_set_self _ _ _ (by simp; omega)]
-        simp
-      | succ j =>
-        have := h7 j (by omega)
-        simp only [w1] at this
-        rw [show i + (j + 1) = i + 1 + j by omega, this]
-        congr 1; omega
+      (∀ j, j < k → n'.cells.get (i + j) = .val (w.created + j)) :=
+  AnyVec.cloneLoop_nofault w src dst s n i k hsd hs hsl hscap hsinit hn hnl hncap hf
 
 /-! non-vacuity -/
 def v0 : VecSt :=
@@ -175,6 +116,30 @@ theorem vectors_stay_independent {bg bg' : Nat → Option VecSt} (cfg : Cfg) (v 
       Refine.Rel (fun x => (Refine.runOps cfg v ty w ops).vecs[x]?) u tu (Refine.runOps cfg v ty w ops)
         { su with next := s'.next } :=
   ⟨Refine.history_frame cfg v ty ops w s h hall u hu, Refine.other_vector_keeps cfg v ty ops w s h hall u tu su hu hrelu⟩
+
+/-! ### `clone()` against the abstract state of all vectors (Props/RefineMulti.lean) -/
+
+/-- **`clone()` refines the abstract vectors**: in any world that shows an abstract state of all its vectors (every
+fault-free reachable world does, `RefineMulti.mrel_of_reach`), cloning a live `Cloneable` vector that shows the items `a`
+leads to a world that shows the same state plus one new last vector holding `a.items.length` fresh identities - the
+clones, made in order - of the same element type, on the same kind of storage, at a capacity that holds them
+(`CloneStep.cloned`); every other component, the source included, is unchanged. The two alternatives are the storage's:
+it cannot be built (nothing happens) or the room cannot be reserved (the new, empty vector is dropped again). -/
+theorem clone_refines (cfg : Cfg) (w : World) (ms : RefineMulti.MSpec) (h : RefineMulti.MRel w ms) (v : Nat)
+    (a : RefineMulti.AVec) (hv : ms.vecs[v]? = some (some a)) (d : VecSt) (hd : w.vecs[v]? = some d)
+    (hcl : d.cloneable = true) :
+    ∃ ms', RefineMulti.CloneStep ms a ms' ∧ RefineMulti.MRel (World.step cfg (.clone v) w).1 ms' ∧
+      (World.step cfg (.clone v) w).2.notUb :=
+  RefineMulti.clone_refines cfg w ms h v a hv d hd hcl
+
+/-- **… and stays independent**: from a world that shows the abstract vectors - for instance right after a `clone()` -
+any history of operations on *any* of the vectors, interleaved in any order, changes each abstract vector only by the
+operations addressed to it: the clone never sees what happens to its source and vice versa. -/
+theorem vectors_evolve_independently (cfg : Cfg) (ops : List RefineMulti.MOp) (w : World) (ms : RefineMulti.MSpec)
+    (h : RefineMulti.MRel w ms)
+    (hall : ∀ m ∈ ops, ∃ a, ms.vecs[m.v]? = some (some a) ∧ m.op.Allowed a.fixed) :
+    ∃ ms', RefineMulti.MSpec.Steps ms ops ms' ∧ RefineMulti.MRel (RefineMulti.mrun cfg w ops) ms' :=
+  RefineMulti.mhistory_refines cfg ops w ms h hall
 
 end C08
 end AnyVec
